@@ -215,6 +215,11 @@ func TestVerifC19(t *testing.T) {
 			c19Scenario(c19Params{name: "P1-4workers-2keys", workers: []string{"a", "a", "b", "b"}, rounds: 1, maxKeys: 1, perKey: 1, lifetime: 100, staleKey: 0, clock: 2 * time.Second, bound: 2}),
 			c19Scenario(c19Params{name: "P5-close-sweep-3workers", workers: []string{"a", "a", "b"}, rounds: 1, maxKeys: 5, perKey: 1, lifetime: 100, staleKey: 1, closer: true, sweeper: true, clock: 2 * time.Second, bound: 2}),
 		)
+		// execution budget per scenario and shard: a scenario whose bound-3 space does not
+		// close within it is reported as capped (bound completed = 2), not run for hours
+		for i := range scs {
+			scs[i].MaxExecs = 1500000
+		}
 	}
 	r.ExploreSchedules(scs)
 }
